@@ -236,6 +236,25 @@ def run(ctx):
                    "one - a signal, a spurious wake - then re-arms the full timeout and the timed pop overruns its deadline",
                    site="%s@timeout-renewed" % inst)
 
+    # ------------------------------------------------------- R4f flag-less public operations that free or fill slots wake sleepers
+    # (clear() has no USE_FUTEX_WAKE of its own: a pusher asleep on a full slot relies on the flag clear() chooses internally)
+    n4f = 0
+    for fn in fb.find(pred=lambda f: C01.is_queue_fn(f) and f.has_cfg() and not f.lambda_ and f.d.get("access") == 0 and
+                      f.name in ("clear",) and L.tparam(f, "USE_FUTEX_WAKE") is None):
+        ig = IG(fn, inline=lambda a, b, c: False)
+        live = ig.live_nodes()
+        inner = [n for n in ig.ev_nodes() if n.id in live and n.ev["e"] == "call" and
+                 re.search(r"ConcurrentBoundedQueue<.*>::(try_)?(pop|push)(_n)?$", n.ev.get("callee", "") or "")]
+        flags = []
+        for n in inner:
+            callee = ig.tu.fns.get(n.ev.get("cid"))
+            flags.append(L.tparam(callee, "USE_FUTEX_WAKE") if callee is not None else None)
+        n4f += 1
+        ctx.ob("C02.R4f", L.short(fn), bool(inner) and all(f_ == "true" for f_ in flags), fn.loc,
+               "%s() moves slot versions through an operation with USE_FUTEX_WAKE=%s: a thread asleep on one of those slots is never "
+               "woken although the slot reached the version it waits for" % (fn.name, flags), site="%s@wakes" % fn.name)
+    ctx.floor("C02.R4f", n4f, 2, "flag-less public slot-moving operations (clear)")
+
     # ------------------------------------------------------- R5d errno reset before the wait (shared with C01.R10)
     C01.errno_discipline(ctx, "C02.R5d", fb)   # conditional: applies where a wait loop tests errno at all
 
